@@ -595,11 +595,45 @@ func streamResolve(g *G) { // C02: add-only tables, several registration orders
 	}
 }
 
+// manualTraceFamily: on a router WITHOUT WithTrace TRACE is an ordinary method; a route that (also) carries a
+// hand-registered TRACE loses other methods one by one, methods it never had, and finally TRACE itself.
+func (g *G) manualTraceFamily(rid int) {
+	g.routerLine(rid, routerOpt{name: "mt" + strconv.Itoa(rid)})
+	p := g.pick([]string{"/t", "/t/{id}", "/r/t"})
+	w := g.instantiate(p, simpleValues)
+	probe := func() {
+		g.emit("routes %d", rid)
+		for _, m := range []string{"TRACE", "GET", "POST", "OPTIONS", "DELETE"} {
+			g.serveLine("serve", rid, m, w, "", nil)
+		}
+		g.serveLine("serve", rid, "OPTIONS", "*", "", nil)
+	}
+	if g.chance(0.5) {
+		g.emit("handle %d %s 1 %%- %s", rid, encB(p+"/below"), encL([]string{"GET"}))
+	}
+	g.emit("handle %d %s 2 %%- %s", rid, encB(p), encL([]string{"TRACE"}))
+	if g.chance(0.6) {
+		g.emit("handle %d %s 3 %%- %s", rid, encB(p), encL([]string{"GET", "POST"}))
+	}
+	probe()
+	steps := [][]string{{"GET"}, {"POST"}, {"DELETE"}, {"GET", "POST"}, {"PUT", "PATCH"}, {"CONNECT"}, {"OPTIONS"}, {"HEAD"}}
+	for _, i := range g.r.Perm(len(steps))[:4] {
+		g.emit("remove %d %s %s", rid, encB(p), encL(steps[i]))
+		probe()
+	}
+	g.emit("remove %d %s %s", rid, encB(p), encL([]string{"TRACE"}))
+	probe()
+}
+
 func streamLifecycle(g *G) { // C03
 	rid := 1
 	for !g.full() {
 		g.history(rid, histCfg{useIc: g.chance(0.3), trace: g.chance(0.3), probes: 2, probeAll: true, siblings: g.chance(0.6), facades: true}, 8+g.intn(25))
 		rid++
+		if g.chance(0.3) {
+			g.manualTraceFamily(rid)
+			rid++
+		}
 	}
 }
 
@@ -840,6 +874,37 @@ func (g *G) splitRemoveFamily(rid int) {
 	}
 }
 
+// cleanedStubFamily: two routes under one parameter are cleaned away with prefixes that end inside a node, which leaves
+// a handler-less stub ({uid}/a) in the tree; then ONE route is registered with another parameter name, and every
+// name-only variant of that only route must still be rejected.
+func (g *G) cleanedStubFamily(rid int) {
+	g.routerLine(rid, routerOpt{name: "stub" + strconv.Itoa(rid)})
+	pre := g.pick([]string{"/p/", "/", "/x/y/"})
+	g.emit("handle %d %s 1 %%- %s", rid, encB(pre+"{uid}/about"), encL([]string{"GET"}))
+	g.emit("handle %d %s 2 %%- %s", rid, encB(pre+"{uid}/album"), encL([]string{"GET"}))
+	g.emit("clean %d %s", rid, encB(pre+"{uid}/ab"))
+	g.emit("clean %d %s", rid, encB(pre+"{uid}/al"))
+	g.emit("routes %d", rid)
+	only := pre + "{id}/about"
+	g.emit("handle %d %s 3 %%- %s", rid, encB(only), encL([]string{"GET"}))
+	probe := func() {
+		g.emit("routes %d", rid)
+		for _, m := range []string{"GET", "POST", "OPTIONS"} {
+			g.serveLine("serve", rid, m, pre+"5/about", "", nil)
+		}
+	}
+	probe()
+	for i, v := range []string{pre + "{uid}/about", pre + "{-id}/about", pre + "{x}/about"} {
+		g.emit("handle %d %s %d %%- %s", rid, encB(v), 4+i, encL([]string{g.pick([]string{"GET", "POST"})}))
+		probe()
+	}
+	// three live routes: the variant of the LAST sibling is still a variant of a live route (rejecting it is allowed, and
+	// whatever the answer, nothing may change when it is rejected)
+	g.emit("handle %d %s 8 %%- %s", rid, encB(pre+"{id}/author"), encL([]string{"GET"}))
+	g.emit("handle %d %s 9 %%- %s", rid, encB(pre+"{id}/avatar"), encL([]string{"GET"}))
+	probe()
+}
+
 func streamReject(g *G) { // C17
 	rid := 1
 	for !g.full() {
@@ -849,6 +914,10 @@ func streamReject(g *G) { // C17
 		}
 		if g.chance(0.3) {
 			g.splitRemoveFamily(rid)
+			rid++
+		}
+		if g.chance(0.25) {
+			g.cleanedStubFamily(rid)
 			rid++
 		}
 		if g.chance(0.4) {
@@ -930,6 +999,37 @@ func streamOnion(g *G) { // C09
 		}
 		rid += 2
 		gid++
+		// a router created in one group is taken out and added to another one (both groups have Use middlewares): Add is
+		// r.Use(g.ms...) of the group it is added to, whatever the router went through before
+		if g.chance(0.6) {
+			ga, gb := gid, gid+1
+			g.emit("group %d 0 %s %%_ %%- 0 %%- %%- %%- 0 0", ga, b2s(g.chance(0.3)))
+			g.emit("group %d 0 0 %%_ %%- 0 %%- %%- %%- 0 0", gb)
+			g.emit("group-use %d %s", ga, encNatList([]int{1, 2}[:1+g.intn(2)]))
+			g.emit("group-use %d %s", gb, encNatList([]int{3, 4, 5}[:1+g.intn(3)]))
+			g.emit("group-new %d %d %s any", ga, rid, encB("mv"))
+			g.emit("handle %d /m1 1 %s %s", rid, encNatList(g.mwList()), encL([]string{"GET"}))
+			if g.chance(0.5) {
+				g.emit("group-use %d %s", ga, encNatList([]int{6}))
+			}
+			g.emit("group-remove %d %s", ga, encB("mv"))
+			g.emit("group-add %d %d any", gb, rid)
+			g.emit("handle %d /m2 2 %s %s", rid, encNatList(g.mwList()), encL([]string{"GET"}))
+			if g.chance(0.4) { // … and back again
+				g.emit("group-remove %d %s", gb, encB("mv"))
+				g.emit("group-add %d %d any", ga, rid)
+				g.emit("handle %d /m3 3 %%- %s", rid, encL([]string{"GET"}))
+			}
+			for _, p := range []string{"/m1", "/m2", "/m3", "/nf", "*"} {
+				for _, m := range []string{"GET", "OPTIONS", "PUT"} {
+					g.serveLine("serve", rid, m, p, "", nil)
+				}
+				g.serveLine("gserve", gb, "GET", p, "", nil)
+				g.serveLine("gserve", ga, "GET", p, "", nil)
+			}
+			rid++
+			gid += 2
+		}
 	}
 }
 
@@ -1005,6 +1105,20 @@ func streamCors(g *G) { // C11, C12
 		}
 		g.emit("handle %d /a 1 %%- %s", rid, encL([]string{"GET", "POST"}))
 		g.emit("handle %d %s 2 %%- %s", rid, encB("/u/{id}"), encL([]string{"PUT"}))
+		if g.chance(0.4) {
+			// a handler that adds its own Vary value (a compression layer): what CORS wrote before must stay, also for the
+			// requests after it
+			g.emit("script 1 a:Vary=Accept-Encoding")
+		} else {
+			g.emit("script 1 %%-")
+		}
+		g.emit("mw-script 9 %%-")
+		if g.chance(0.4) {
+			// the same as a Use middleware (it also runs around the automatic OPTIONS handler, i.e. on refused preflights);
+			// requests that pass through it are outside the model (tie: unsupported) but judged, the later ones are compared
+			g.emit("use %d 9", rid)
+			g.emit("mw-script 9 a:Vary=Accept-Encoding")
+		}
 		var reqs []corsReq
 		for i := 0; i < 40; i++ {
 			var h []kv
@@ -1051,9 +1165,13 @@ func streamCors(g *G) { // C11, C12
 				h = append(h, kv{"Access-Control-Request-Headers", v})
 			}
 			m := g.pick([]string{"OPTIONS", "OPTIONS", "GET", "POST", "PUT", "DELETE", "HEAD", "", "TRACE"})
-			p := g.pick([]string{"/a", "/a", "/u/5", "/none", "*"})
+			p := g.pick([]string{"/a", "/a", "/u/5", "/none", "*", ""})
 			g.serveLine("serve", rid, m, p, "", h)
 			reqs = append(reqs, corsReq{m, p, h})
+		}
+		g.emit("mw-script 9 %%-")
+		for _, q := range []corsReq{{"GET", "/a", []kv{{"Origin", "https://a.example"}}}, {"OPTIONS", "/a", []kv{{"Origin", "https://a.example"}, {"Access-Control-Request-Method", "GET"}}}, {"GET", "/u/5", []kv{{"Origin", "https://b.example"}}}} {
+			g.serveLine("serve", rid, q.m, q.p, "", q.h)
 		}
 		if g.chance(0.5) {
 			// the route table changes between preflights: a further method on a live pattern, a removed method, a new
@@ -1707,6 +1825,37 @@ func streamFacade(g *G) { // C19: the same program through façades (router A) a
 			g.serveLine("serve", b, "OPTIONS", "*", "", nil)
 		}
 		if g.chance(0.4) {
+			// Prefix.Clean with prefixes that end inside a node leaves handler-less nodes behind (clean never prunes its
+			// parents): the text two removed routes shared (/d/b of /d/b1, /d/b2) next to a parameter sibling, and a static
+			// Resource whose pattern is the text shared by two live routes (a structural node, not a route)
+			for _, p := range []string{"/d/b1", "/d/b2", "/d/{id}", "/files/a.html", "/files/b.html"} {
+				pool = append(pool, p)
+				both(fmt.Sprintf("handle %d %s %d %%- %s", a, encB(p), nextH, encL([]string{"GET"})), fmt.Sprintf("handle %d %s %d %%- %s", b, encB(p), nextH, encL([]string{"GET"})))
+				nextH++
+			}
+			g.emit("facade %d %d prefix - %s %%-", nextF, a, encB("/files/"))
+			g.emit("facade %d %d resource %d %%_ %%-", nextF+1, a, nextF)
+			facs = append(facs, fac{id: nextF, pattern: "/files/"}, fac{id: nextF + 1, pattern: "/files/", resource: true})
+			for _, strict := range []string{"1", "0"} {
+				both(fmt.Sprintf("furl %d %s %%_ %%-", nextF+1, strict), fmt.Sprintf("url %d %s %s %%-", b, strict, encB("/files/")))
+			}
+			nextF += 2
+			for _, pre := range []string{"/d/b1", "/d/b2"} {
+				g.emit("facade %d %d prefix - %s %%-", nextF, a, encB(pre))
+				facs = append(facs, fac{id: nextF, pattern: pre})
+				// desugared: Prefix.Clean removes exactly the routes whose pattern starts with the prefix — here one route
+				both(fmt.Sprintf("fclean %d", nextF), fmt.Sprintf("remove %d %s %%-", b, encB(pre)))
+				nextF++
+				both(fmt.Sprintf("routes %d", a), fmt.Sprintf("routes %d", b))
+				for _, w := range []string{"/d/b", "/d/b1", "/d/b2", "/d/5", "/d/"} {
+					for _, m := range []string{"GET", "OPTIONS"} {
+						g.serveLine("serve", a, m, w, "", nil)
+						g.serveLine("serve", b, m, w, "", nil)
+					}
+				}
+			}
+		}
+		if g.chance(0.4) {
 			// the caller's middleware list is a prefix of a longer list it uses again later (ms[:2]... then ms...): a façade
 			// with middlewares of its own must not write into the caller's backing array
 			own := []int{1 + g.intn(3), 4 + g.intn(3)}
@@ -1928,6 +2077,35 @@ func streamIsolation(g *G) { // C07: decoys interleaved with an observed instanc
 			nested(k)
 			nested(k + 3)
 			g.serveLine("serve", pr, "GET", "/slow/after"+strconv.Itoa(k), "", nil)
+		}
+		// routers of ONE group with options of their own: an interceptor given to Group.New for one router must not reach
+		// its sibling (same rule text as a regexp there)
+		{
+			gi := 700 + rid%250
+			// the router with the interceptor is a DECOY (id 1000..1999): the judge re-runs the stream without its lines and
+			// the plain sibling must answer the same
+			ra, rb := 1900+rid%90, 600001+2*rid
+			g.emit("group %d 0 0 %%_ %%- 0 %%- %%- %%- 0 0", gi)
+			first, second := ra, rb
+			if g.chance(0.5) {
+				g.emit("group-new %d %d %s pv:%%_:v1 %s", gi, ra, encB("withic"), encKVs([]kv{{"[0-9]+", "5"}}))
+				g.emit("group-new %d %d %s pv:%%_:v2", gi, rb, encB("plain"))
+			} else {
+				g.emit("group-new %d %d %s pv:%%_:v2", gi, rb, encB("plain"))
+				g.emit("group-new %d %d %s pv:%%_:v1 %s", gi, ra, encB("withic"), encKVs([]kv{{"[0-9]+", "5"}}))
+				first, second = rb, ra
+			}
+			_, _ = first, second
+			for _, r := range []int{ra, rb} {
+				g.emit("handle %d %s 1 %%- %s", r, encB("/n/{id:[0-9]+}"), encL([]string{"GET"}))
+				g.emit("handle %d %s 2 %%- %s", r, encB("/n/{name}"), encL([]string{"GET"}))
+			}
+			for _, p := range []string{"/v2/n/42", "/v2/n/ab"} {
+				g.serveLine("gserve", gi, "GET", p, "", nil)
+			}
+			g.serveLine("serve", ra, "GET", "/n/42", "", nil)
+			g.serveLine("serve", rb, "GET", "/n/42", "", nil)
+			g.serveLine("serve", rb, "GET", "/n/ab", "", nil)
 		}
 		var isoPool []string
 		for s := 0; s < 10; s++ {
